@@ -96,7 +96,19 @@ func TabBounds(p *load.Program) *report.RuleResult {
 			missing(r, rw.fn, "function not found")
 			continue
 		}
-		found := boundariesIn(fn, rw.operand)
+		// the function and the unexported helpers it hands the operand to (a loop body or a branch
+		// extracted into a helper keeps the same comparisons on a parameter of the same name)
+		found := map[string]ssa.Instruction{}
+		pat := strings.TrimPrefix(rw.operand, "phi ")
+		for _, g := range helperClosure(p, fn, func(f *ssa.Function) bool {
+			return (f.Object() == nil || !f.Object().Exported()) && p.File(f.Pos()) == p.File(fn.Pos())
+		}, 2) {
+			for k, v := range boundariesIn(g, pat) {
+				if _, dup := found[k]; !dup {
+					found[k] = v
+				}
+			}
+		}
 		var have []string
 		for k := range found {
 			have = append(have, k)
@@ -116,6 +128,8 @@ func TabBounds(p *load.Program) *report.RuleResult {
 
 // containsParts: the parts of pat (separated by '*') occur in s in order.
 func containsParts(s, pat string) bool {
+	// names of locals are matched loosely (idx / offsetIdx): lower case, substring
+	s, pat = strings.ToLower(s), strings.ToLower(pat)
 	for _, part := range strings.Split(pat, "*") {
 		i := strings.Index(s, part)
 		if i < 0 {
@@ -159,7 +173,16 @@ func OrdNegZero(p *load.Program) *report.RuleResult {
 		for _, in := range b.Succs[0].Instrs {
 			if bo, ok := in.(*ssa.BinOp); ok && bo.Op == token.EQL {
 				if k, ok := ssau.ConstInt(bo.Y); ok && k == negInt && strings.HasSuffix(ssau.Path(bo.X), ".code") {
-					flag = ph
+					// ... and that comparison decides an error exit (the rejection), not the negation of
+					// the magnitude, which tests the same code under another boolean
+					s0 := b.Succs[0]
+					if blockIfCond(s0) == ssa.Value(bo) && len(s0.Succs) == 2 {
+						for _, x := range s0.Succs[0].Instrs {
+							if ret, ok := x.(*ssa.Return); ok && len(ret.Results) > 0 && definitelyNonNilError(p, ret.Results[len(ret.Results)-1], 0) {
+								flag = ph
+							}
+						}
+					}
 				}
 			}
 		}
@@ -427,8 +450,12 @@ func OrdDecNegZero(p *load.Program) *report.RuleResult {
 	for _, b := range fn.Blocks {
 		for _, in := range b.Instrs {
 			if c, ok := in.(*ssa.Call); ok && c.Call.StaticCallee() != nil && c.Call.StaticCallee().Name() == "readBigInt" {
-				if basicKind(c.Call.StaticCallee().Signature.Results().At(0).Type()) == 1 {
-					signPath = ssau.Path(c) + "#0"
+				// the sign is the boolean result, whichever position it has
+				rs := c.Call.StaticCallee().Signature.Results()
+				for ri := 0; ri < rs.Len(); ri++ {
+					if basicKind(rs.At(ri).Type()) == 1 {
+						signPath = sprintf("%s#%d", ssau.Path(c), ri)
+					}
 				}
 			}
 		}
